@@ -121,9 +121,12 @@ func (f *BasicTombstoneFilter) ShouldKeep(key, value []byte) bool {
 
 	// For tombstones (value == nil):
 
-	// If we have a tracker, use it to determine if the tombstone is still needed
-	if f.tracker != nil {
-		return f.tracker.ShouldKeepTombstone(key)
+	// If we have a tracker, it can only give an extra reason to keep the
+	// tombstone. It lives in memory and starts empty with every process, so
+	// "not tracked" says nothing about whether older versions of the key still
+	// exist in deeper levels
+	if f.tracker != nil && f.tracker.ShouldKeepTombstone(key) {
+		return true
 	}
 
 	// Otherwise use level-based heuristic
